@@ -154,7 +154,11 @@ def rand_result(r):
         taken = r.randrange(0, 14)
     scoring = r.choice(list(Scoring))
     sc = r.choice([0, 50, -100, 420, -7600, 7600, r.randrange(-8000, 8000)])
-    scores = {Pair.NS: sc, Pair.EW: -sc if r.random() < 0.9 else r.randrange(-100, 100)}
+    scores = {Pair.NS: sc, Pair.EW: -sc if r.random() < 0.85 else r.randrange(-100, 100)}
+    if r.random() < 0.08:
+        # scoring forms that are not zero-sum: one side's score is 0, the other's is not
+        scores = r.choice([{Pair.NS: 620, Pair.EW: 0}, {Pair.NS: 0, Pair.EW: 100},
+                           {Pair.NS: 0, Pair.EW: -50}, {Pair.NS: -7600, Pair.EW: 0}])
     dda = rand_dda(r)
     names = [rand_text(r) for _ in range(4)]       # N, E, S, W
     bid_ = rand_text(r)
